@@ -240,6 +240,84 @@ def pHex : TP Bytes := fun ts => match ts with
   | [] => none
   | t :: r => (Hex.decode t).map (·, r)
 
+/-! ### streams -/
+
+def pLE : TP LPEntry := fun ts => match ts with
+  | [] => none
+  | t :: r => (parseLE t).map (·, r)
+
+/-- `<flags> LE LE LP` -/
+def pSEntry : TP SEntryE := fun ts => do
+  let (flags, r) ← pNat ts
+  let (ms, r1) ← pLE r
+  let (seq, r2) ← pLE r1
+  let (items, r3) ← pLP r2
+  pure ({ deleted := flags % 2 = 1, same := flags / 2 % 2 = 1, msDelta := ms, seqDelta := seq, items }, r3)
+
+/-- `W <mMs> <mSeq> LP <n> ENTRY*n` -/
+def pSNode : TP SNodeE := fun ts => match ts with
+  | w :: r => do
+    let (mMs, r1) ← pNat r
+    let (mSeq, r2) ← pNat r1
+    let (mf, r3) ← pLP r2
+    let (n, r4) ← pNat r3
+    let (es, r5) ← pMany pSEntry n r4
+    let n0 : SNodeE := { w := SE.plain [], masterMs := mMs, masterSeq := mSeq, masterFields := mf, entries := es }
+    let w ← wrapBlob w n0.blob
+    pure ({ n0 with w := w }, r5)
+  | [] => none
+
+def pNack : TP SNackE := fun ts => do
+  let (ms, r) ← pNat ts
+  let (seq, r1) ← pNat r
+  let (time, r2) ← pNat r1
+  let (count, r3) ← pNat r2
+  pure ({ ms, seq, time, count }, r3)
+
+def pSConsumer : TP SConsumerE := fun ts => do
+  let (name, r) ← pSE ts
+  let (seen, r1) ← pNat r
+  let (active, r2) ← pNat r1
+  let (n, r3) ← pNat r2
+  let (pel, r4) ← pMany (pPair pNat pNat) n r3
+  pure ({ name, seen, active, pel }, r4)
+
+def pSGroup : TP SGroupE := fun ts => do
+  let (name, r) ← pSE ts
+  let (lastMs, r1) ← pNat r
+  let (lastSeq, r2) ← pNat r1
+  let (entriesRead, r3) ← pNat r2
+  let (np, r4) ← pNat r3
+  let (pel, r5) ← pMany pNack np r4
+  let (nc, r6) ← pNat r5
+  let (consumers, r7) ← pMany pSConsumer nc r6
+  pure ({ name, lastMs, lastSeq, entriesRead, pel, consumers }, r7)
+
+def pIdmpProducer : TP (SE × List (SE × Nat × Nat)) := fun ts => do
+  let (pid, r) ← pSE ts
+  let (n, r1) ← pNat r
+  let (es, r2) ← pMany (pPair pSE (pPair pNat pNat)) n r1
+  pure ((pid, es), r2)
+
+def pStream : TP StreamE := fun ts => do
+  let (ver, r) ← pNat ts
+  let (nn, r0) ← pNat r
+  let (nodes, r1) ← pMany pSNode nn r0
+  let (nums, r2) ← pMany pNat 8 r1
+  match nums with
+  | [length, lastMs, lastSeq, firstMs, firstSeq, maxDelMs, maxDelSeq, entriesAdded] =>
+    let (ng, r3) ← pNat r2
+    let (groups, r4) ← pMany pSGroup ng r3
+    let (dur, r5) ← pNat r4
+    let (mx, r6) ← pNat r5
+    let (np, r7) ← pNat r6
+    let (producers, r8) ← pMany pIdmpProducer np r7
+    let (added, r9) ← pNat r8
+    let (dups, r10) ← pNat r9
+    pure ({ ver, nodes, length, lastMs, lastSeq, firstMs, firstSeq, maxDelMs, maxDelSeq, entriesAdded, groups,
+            idmp := { duration := dur, maxEntries := mx, producers, added, dups } }, r10)
+  | _ => none
+
 def pObj : TP ObjE := fun ts => match ts with
   | "str" :: r => (pSE r).map (fun (s, r') => (.str s, r'))
   | "list" :: r => do
@@ -287,6 +365,7 @@ def pObj : TP ObjE := fun ts => match ts with
     pure (.hashZipmap w items, r2)
   | "hzl" :: r => (pWZL r).map (fun ((w, zl), r') => (.hashZiplist w zl, r'))
   | "hlp" :: r => (pWLP r).map (fun ((w, es), r') => (.hashListpack w es, r'))
+  | "stream" :: r => (pStream r).map (fun (s, r') => (.stream s, r'))
   | "raw" :: t :: h :: r => do
     let t ← t.toNat?
     let b ← Hex.decode h
@@ -344,11 +423,14 @@ def pFile : TP FileE := fun ts => match ts with
   | "v" :: v :: r => do
     let v ← v.toNat?
     let (items, r1) ← pItems (r.length + 1) r
-    match r1 with
-    | "good" :: r2 => pure ({ version := v, items, footer := .good }, r2)
-    | "zero" :: r2 => pure ({ version := v, items, footer := .zero }, r2)
-    | "bad" :: r2 => pure ({ version := v, items, footer := .bad }, r2)
-    | _ => none
+    let (ft, r2) ← (match r1 with
+      | "good" :: r2 => some (FooterE.good, r2)
+      | "zero" :: r2 => some (FooterE.zero, r2)
+      | "bad" :: r2 => some (FooterE.bad, r2)
+      | _ => none)
+    let f : FileE := { version := v, items, footer := ft }
+    -- descriptions that do not denote a real Redis dataset are refused
+    if decide f.wf then pure (f, r2) else none
   | _ => none
 
 /-- FILE description or `raw <hex>` → snapshot bytes -/
@@ -439,7 +521,11 @@ def handle : List String → Option (List String)
                               maxBulk := bulk, parallel := par, targetDb := tdb, dbMap := dbmap, now := now }
           let (logs, ok) := sendRdb { thr, failModAux := modaux == "1" } cfg pre bs
           if ok then
-            some ((logs.zipIdx.flatMap (fun (l, k) => l.map (fun c => tag ++ s!"w{k} " ++ showCmd c)))
+            -- worker logs in canonical order: sorted by their rendered content
+            let joined := logs.map (fun l => "\n".intercalate (l.map showCmd))
+            let sorted := (joined.toArray.qsort (· < ·)).toList
+            some ((sorted.zipIdx.flatMap (fun (j, k) =>
+                    if j == "" then [] else (j.splitOn "\n").map (fun l => tag ++ s!"w{k} " ++ l)))
                   ++ [tag ++ "result ok"])
           else some [tag ++ "result err"]
         | _ => some [tag ++ "bad-desc"]
